@@ -33,6 +33,11 @@ def configs(tier):
              over=dict(Kinds=["sock"], NT=2, MaxTick=2, MaxPosts=2, TickUs=2000,
                        Cmds={"read", "close", "tonce", "trep", "tcancel", "tclose", "post"}, Envs={"send", "tick"},
                        MaxCmds=mc - 1)),
+        dict(name="gen: listener + packet conn: accept / readfrom / writeto / close", sample=n // 2,
+             over=dict(Kinds=["lst", "pkt"], Cmds={"read", "write", "close"}, Envs={"send"}, MaxCmds=mc, MaxData=2)),
+        dict(name="gen: multicast peer + AsyncAdapter: read / write / cancel / close", sample=n // 2,
+             over=dict(Kinds=["mcp", "adp"], Cmds={"read", "write", "cancel", "close"}, Envs={"send", "peerclose"},
+                       MaxOps=3, MaxCmds=mc)),
         dict(name="runpending: sock+pipeR, timer, post", sample=n // 2,
              over=dict(Class="runpending", Kinds=["sock", "pipeR"], NT=1, MaxTick=2, MaxPosts=1, TickUs=2000,
                        Cmds={"read", "cancel", "close", "tonce", "tcancel", "post"}, Envs={"send", "peerclose", "tick"},
